@@ -1,16 +1,30 @@
 #!/bin/bash
-# usage: seed_matrix.sh [seed ids...]: runs the quick check of each seed's property against the seeded
-# change (scratch worktree, /repo untouched) and appends "<seed> <property> <verdict> <detail>" to seeded/RESULTS.txt
+# usage: seed_matrix.sh [seed[:harness] ...]: runs the quick check of each seed's property against the
+# seeded change (scratch worktree, /repo untouched) and records "<seed> <property> <verdict> <detail>" in
+# seeded/RESULTS.txt. With a harness hint that harness is tried first (a violation found by one harness
+# of the property is a violation found by the property's quick check); MISSED is only ever recorded
+# after the complete quick check.
 cd /verif
 out=seeded/RESULTS.txt
 seeds="$@"; [ -z "$seeds" ] && seeds=$(ls seeded | grep '^C')
-for sd in $seeds; do
+for item in $seeds; do
+  sd=${item%%:*}; hint=""; [ "$item" != "$sd" ] && hint=${item#*:}
   prop=${sd%-*}
   log=$(mktemp /tmp/matrix-XXXX)
-  tools/try_seed_wt.sh seeded/$sd $prop > $log 2>&1
-  if grep -q "^VIOLATION" $log; then v=CAUGHT; det=$(grep "counterexample" $log | head -1 | sed 's/.*harness=\([A-Za-z0-9_]*\) label="\([^"]*\)".*/\1: \2/');
-  elif grep -q "^OK property" $log; then v=MISSED; det="";
-  else v=INCONCLUSIVE; det=$(grep INCONCLUSIVE $log | head -1 | cut -c1-160); fi
+  v=""
+  if [ -n "$hint" ]; then
+    tools/try_seed_wt.sh seeded/$sd $prop --harness $hint > $log 2>&1
+    grep -q "^VIOLATION" $log && v=CAUGHT
+  fi
+  if [ -z "$v" ]; then
+    tools/try_seed_wt.sh seeded/$sd $prop > $log 2>&1
+    if grep -q "^VIOLATION" $log; then v=CAUGHT; elif grep -q "^OK property" $log; then v=MISSED; else v=INCONCLUSIVE; fi
+  fi
+  case $v in
+    CAUGHT) det=$(grep "counterexample" $log | head -1 | sed 's/.*harness=\([A-Za-z0-9_]*\) label="\([^"]*\)".*/\1: \2/');;
+    MISSED) det="";;
+    *) det=$(grep INCONCLUSIVE $log | head -1 | cut -c1-160);;
+  esac
   grep -v "^$sd " $out > $out.tmp 2>/dev/null; mv $out.tmp $out 2>/dev/null
   echo "$sd $prop $v $det" >> $out
   rm -f $log
